@@ -429,7 +429,7 @@ def tie_d(prop, tier, cases=(), priority=()):
         elif prop == 'C17':
             ok = cid.startswith('d2/eq/') or cid.startswith('d2/eqbound/') or cid.startswith('d2/union/')
         elif prop == 'C06':
-            ok = cid.startswith('d2/traitless/') or (cid.startswith('d2/eq/') and 'skip' in cid)
+            ok = cid.startswith('d2/traitless/') or cid.startswith('d2/eq/')
         else:
             ok = True
         if ok:
